@@ -315,6 +315,18 @@ func genReuse(r *rand.Rand, i int) Scenario {
 				sc.Ops = append(sc.Ops, Op{Op: "it_next_last"})
 			}
 		}
+		if len(live) > 0 && r.Intn(2) == 0 {
+			// an earlier list is still live (reusing an ITERATOR must not disturb the lists it served)
+			old := live[r.Intn(len(live))]
+			sc.Ops = append(sc.Ops, Op{Op: "pl_count", Pl: old})
+			if r.Intn(2) == 0 {
+				sc.Ops = append(sc.Ops, Op{Op: "it_open", Pl: old, It: 400 + k, Freq: true, Norm: true, Locs: true},
+					Op{Op: "it_next_last"}, Op{Op: "it_next_last"}, Op{Op: "it_next_last"})
+				if r.Intn(2) == 0 {
+					liveIt = append(liveIt, 400+k)
+				}
+			}
+		}
 		if pre == 0 {
 			live = append(live, 100+k)
 		}
@@ -435,6 +447,31 @@ func genDvWalk(r *rand.Rand, i int) Scenario {
 	for k := 0; k < 30; k++ {
 		hot[r.Intn(n)] = true
 	}
+	// whole 1024-document chunks without any doc value (leading, middle or trailing gaps)
+	nchunks := (n + 1023) / 1024
+	active := map[int]bool{}
+	if r.Intn(2) == 0 {
+		for c := 0; c < nchunks; c++ {
+			active[c] = true
+		}
+	} else {
+		for c := 0; c < nchunks; c++ {
+			if r.Intn(2) == 0 {
+				active[c] = true
+			}
+		}
+		if len(active) == 0 {
+			active[nchunks-1] = true
+		}
+	}
+	for d := range hot {
+		if !active[d/1024] {
+			delete(hot, d)
+		}
+	}
+	if len(hot) == 0 {
+		hot[n-1] = true
+	}
 	tv := [][]byte{[]byte("p"), []byte("q"), []byte("pq"), []byte(""), {0}, []byte("r")}
 	for d := 0; d < n; d++ {
 		if !hot[d] || r.Intn(6) == 0 {
@@ -473,6 +510,9 @@ func genDvWalk(r *rand.Rand, i int) Scenario {
 		}
 	}
 	sc := Scenario{Name: fmt.Sprintf("dv_walk-%d", i), NormKind: "code", Universe: []string{"_id", "a", "b", "nosuchfield"}, Batches: []Batch{b}}
+	if len(active) < nchunks {
+		sc.Tags = append(sc.Tags, "dv_chunk_gap")
+	}
 	sc.Ops = append(sc.Ops, Op{Op: "build", Seg: 1, Batch: 0, Mode: 0})
 	seg, cnt := 1, n
 	if r.Intn(2) == 0 {
@@ -482,22 +522,35 @@ func genDvWalk(r *rand.Rand, i int) Scenario {
 		seg, cnt = 2, n-len(drop)
 	}
 	fieldSets := [][]string{{"a"}, {"a", "b"}, {"b", "a"}, {"nosuchfield", "a"}, {"b"}, {"_id", "a", "b"}}
-	sc.Ops = append(sc.Ops, Op{Op: "dv_open", Seg: seg, R: 1, Fields: fieldSets[r.Intn(len(fieldSets))]})
 	hots := keys(hot)
-	for k := 0; k < 60; k++ {
-		var d int
-		switch r.Intn(4) {
-		case 0:
-			d = r.Intn(cnt)
-		case 1: // boundary ping-pong
-			d = []int{1023, 1024, 1022, 1025, 2047, 2048, 0}[r.Intn(7)]
-		default:
-			d = hots[r.Intn(len(hots))]
+	type tgt struct{ seg, cnt, r int }
+	targets := []tgt{{1, n, 1}}
+	if seg != 1 {
+		targets = append(targets, tgt{seg, cnt, 2})
+	}
+	for _, t := range targets {
+		sc.Ops = append(sc.Ops, Op{Op: "dv_open", Seg: t.seg, R: t.r, Fields: fieldSets[r.Intn(len(fieldSets))]})
+		for k := 0; k < 50; k++ {
+			var d int
+			switch r.Intn(4) {
+			case 0:
+				d = r.Intn(t.cnt)
+			case 1: // boundary ping-pong
+				d = []int{1023, 1024, 1022, 1025, 2047, 2048, 0}[r.Intn(7)]
+			default:
+				d = hots[r.Intn(len(hots))]
+				if t.seg != 1 && r.Intn(2) == 0 {
+					d -= r.Intn(30) // survivors move down by the number of deletions before them
+				}
+			}
+			if d >= t.cnt {
+				d = t.cnt - 1
+			}
+			if d < 0 {
+				d = 0
+			}
+			sc.Ops = append(sc.Ops, Op{Op: "dv_visit", R: t.r, N: d})
 		}
-		if d >= cnt {
-			d = cnt - 1
-		}
-		sc.Ops = append(sc.Ops, Op{Op: "dv_visit", R: 1, N: d})
 	}
 	return sc
 }
